@@ -71,6 +71,20 @@ PROPS = {
         "assumptions": ["the evaluator as a deterministic function `apply`; hash answers an Int, eq a Bool (type facts, C01)",
                         "std HashMap<u64, _>::get by vstd's specification; slice::Iter / enumerate by the finite iterator model (trusted)"],
     },
+    "C18": {
+        "level": "other",
+        "explanation": "Narrow claim on the dual representation of strings. Decided by Verus contracts on real text: FencedString::{len, substr, substring} (src/util/fenced_string.rs) against the representation invariant (an empty offset table means pure ASCII text, a non-empty one has one entry per code point, entry i being the byte offset of code point i): `len` is the number of code points, `substr` / `substring` of (start, end) with start <= len denote exactly the code points [start, min(end, len)) whichever representation the string has, and `substring` returns a well-formed string; the natives get / find / rfind / substring (src/builtin/str.rs) turn every out-of-range request into an error value before they reach those functions, and find / rfind answer code-point positions. UTF-8 itself is abstracted by uninterpreted functions (number of code points, byte offset of a code point) with the boundary facts the code relies on as axioms; `String` / `Vec` / `str` are model types of the same names. NOT decided: construction of the table (from_string: char_indices), push / push_ascii, case mapping, the literal grammar and escapes, formatted strings, and every string function written in the xray language (split, replace, strip, partition, ...).",
+        "units": [
+            {"kind": "verus", "unit": "fstr"},
+        ],
+        "unreached": [
+            "FencedString::{from_string, push, push_ascii, to_lowercase, to_uppercase}: construction and maintenance of the offset table (char_indices, iterator towers, std case mapping)",
+            "the literal grammar (xray.pest), escapes (str_escapes.rs), formatted strings (xformatter.rs)",
+            "string functions written in the xray language (include.rs: split, replace, strip, partition, chars, reverse, ...), comparison, repetition",
+        ],
+        "assumptions": ["UTF-8 abstracted: nchars / off / ascii are uninterpreted, with axioms: offsets are strictly increasing from 0 to the byte length; a piece cut at two code-point offsets has the code points in between, offsets shifted, and stays ASCII; ASCII text has one byte per code point; the empty text is ASCII",
+                        "String / str / Vec are model types (byte / element sequences) with slicing, to_string, get, iter().map().collect() by their documented meaning; std panics on a str slice off a char boundary are not modelled beyond the range bounds (the offsets used are code-point offsets by the invariant)"],
+    },
     "C06": {
         "level": "other",
         "explanation": "Narrow claim on the hand-written forwarding code. Almost all propagation in the crate is `?` on RuntimeResult and the early-return macros, which the type system makes impossible to skip. Decided here by Verus contracts on real text: the macros xraise!/forward_err! return the error they receive; the search-budget closure of XGenerator::iter lets the budget's violation win and otherwise returns the element unchanged; the element closures of the adaptors Aggregate, Filter, TakeWhile, SkipUntil hand on a violation of the incoming element and a violation or error value answered by the user callback, unchanged and never as None. Decided by enumeration: every function of the crate that inspects a Result's failure case other than by `?`/macros is listed with its classification (documented handler, library-error conversion, forwarding arm with pinned text), with the number of sites pinned. NOT decided: leftmost-error order of constructions (std collect semantics), that a user function yields an unused erroring argument, that collections never contain errors, the other adaptors (SuccessorsUntil, Map, Zip, Group, Windows, WithCount, Product).",
@@ -273,6 +287,12 @@ CLAIMS = {
         "technique": "contract-based deductive verification: Verus contracts on the real text of XMapping::locate and XSet::locate (structs and KeyLocation extracted; std HashMap<u64,_> by vstd's specification; finite iterator model for the bucket scan)",
         "text": "Narrow (one mechanism): the location of a key is proved to be Vacant exactly when there is no bucket for its hash and otherwise the outcome of the in-order equality scan of that bucket (first equal key: Found with its index; a failing comparison before that: its error value; none: Missing), for every table content, hash and equality function.",
         "note": "Insertion, overwrite, removal, len maintenance, persistence of versions and the set algebra are listed as unreached; the evaluator is a deterministic function `apply`.",
+    },
+    "C18": {
+        "engine": "vx+verus",
+        "technique": "contract-based deductive verification: Verus contracts on the real text of FencedString::{len, substr, substring} against the representation invariant of the offset table, and on the index guards of the str natives get / find / rfind / substring; UTF-8 abstracted by uninterpreted functions with axioms",
+        "text": "Narrow (the dual representation): len is proved to be the number of code points and substr / substring to denote exactly the code points [start, min(end, len)) for either representation (ASCII text without table, other text with a byte-offset table), substring returning a well-formed string; the natives are proved to hand only in-range requests to them (everything else is an error value) and find / rfind to answer code-point positions.",
+        "note": "Table construction, push, case mapping, literals, escapes, formatting and the string library written in the xray language are listed as unreached; UTF-8 is axiomatised, not modelled.",
     },
     "C06": {
         "engine": "vx+verus",
